@@ -620,7 +620,8 @@ func makeShapes(tag string, r *vrng) (*api.Shapes, api.Shapes) {
 		sh.Tod.SetTo(time.Date(0, 1, 1, r.intn(24), r.intn(60), r.intn(60), 0, time.UTC))
 	}
 	if r.coin() {
-		sh.Dur.SetTo(time.Duration(r.intn(100000)) * time.Second)
+		// any duration: negative, shorter than a second, both
+		sh.Dur.SetTo([]time.Duration{time.Duration(r.intn(100000)) * time.Second, -250 * time.Millisecond, 1500 * time.Millisecond, -time.Duration(1+r.intn(999)) * time.Microsecond, -time.Duration(1+r.intn(3600)) * time.Second, time.Duration(r.intn(1000000)) * time.Nanosecond, -1}[r.intn(7)])
 	}
 	if r.coin() {
 		sh.UID.SetTo(uuid.NewMD5(uuid.Nil, []byte(tag)))
@@ -1045,7 +1046,9 @@ func doCall(ctx context.Context, c *api.Client, rec *CallRecord) {
 	case "echoMultipart":
 		sizes := []int{0, 1, 10, 63, 64, 65, 700, 5000, 20000}
 		fb := payload("file-"+tag, sizes[r.intn(len(sizes))])
-		req := &api.EchoMultipartReq{Name: "mp " + tag, File: ht.MultipartFile{Name: "f-" + tag + ".bin", File: streamReader(call.Reader, fb)}}
+		// file names: plain, with a blank, with non-ASCII letters, with both
+		fname := []string{"f-" + tag + ".bin", "f " + tag + ".bin", "résumé-" + tag + ".pdf", "mon résumé " + tag + ".pdf", "f+" + tag + ";x=1.bin"}[r.intn(5)]
+		req := &api.EchoMultipartReq{Name: "mp " + tag, File: ht.MultipartFile{Name: fname, File: streamReader(call.Reader, fb)}}
 		expCount := api.NewOptInt(7)
 		if r.coin() {
 			req.Count.SetTo(r.intn(1000))
@@ -1079,10 +1082,10 @@ func doCall(ctx context.Context, c *api.Client, rec *CallRecord) {
 			Extra   fileSeen
 			HasEx   bool
 			Members string
-		}{req.Name, expCount, fileSeen{Name: "f-" + tag + ".bin", Sum: sum(fb), Len: len(fb)}, exExtra, hasExtra, members})
+		}{req.Name, expCount, fileSeen{Name: fname, Sum: sum(fb), Len: len(fb)}, exExtra, hasExtra, members})
 		up := api.Upload{Name: req.Name, Count: expCount.Value, FileSum: sum(fb), FileLen: len(fb)}
 		up.Members.SetTo(members)
-		up.FileName.SetTo("f-" + tag + ".bin")
+		up.FileName.SetTo(fname)
 		if hasExtra {
 			up.ExtraSum.SetTo(sum(eb))
 			up.ExtraLen.SetTo(len(eb))
@@ -1335,7 +1338,7 @@ func doCall(ctx context.Context, c *api.Client, rec *CallRecord) {
 			params.Addr.SetTo(netip.AddrFrom4([4]byte{byte(1 + r.intn(200)), byte(r.intn(256)), byte(r.intn(256)), byte(1 + r.intn(200))}))
 		}
 		if r.coin() {
-			params.Dur.SetTo(time.Duration(1+r.intn(100000)) * time.Second)
+			params.Dur.SetTo([]time.Duration{time.Duration(1+r.intn(100000)) * time.Second, -250 * time.Millisecond, 1500 * time.Millisecond, -time.Duration(1+r.intn(3600)) * time.Second, -1}[r.intn(5)])
 		}
 		if r.coin() {
 			params.Obj.SetTo(api.Pair{Role: api.NewOptString("ro-" + tag), Name: api.NewOptString("na " + tag)})
